@@ -63,13 +63,46 @@ def traces(level, p):
     return out
 
 
+def big_trace(nvars, ncons, p):
+    """One LARGE generated trace (sizes beyond every 8-bit / 12-bit / 13-bit / 16-bit count or 64 KiB buffer):
+    every tenth variable public, values not a function of the position alone, every constraint
+    v[a] * (k*v[b] + one) = 3*v[c] - v[a] with a, b, c spread over the WHOLE index range."""
+    vs = []
+    for i in range(nvars):
+        val = i * i + 3
+        if i % 97 == 0:
+            val = -(i + 1)
+        if i % 101 == 0:
+            val = p + i
+        vs.append(("pub" if i % 10 == 0 else "priv", val))
+    cons = []
+    for j in range(ncons):
+        cons.append(("g", (j * 7919) % nvars, nvars - 1 - (j % nvars), (j * 104729 + 5) % nvars, j + 2))
+    return {"vars": vs, "cons": cons, "big": True}
+
+
+def compact(spec):
+    """Replayable form of a spec (large generated traces are stored by their size)."""
+    return {"big": [len(spec["vars"]), len(spec["cons"])]} if spec.get("big") else spec
+
+
+def expand(d, p):
+    if isinstance(d.get("big"), list):
+        return big_trace(d["big"][0], d["big"][1], p)
+    return {"vars": [tuple(v) for v in d["vars"]], "cons": [tuple(c) for c in d["cons"]]}
+
+
 def build(api, spec, p):
     """Perform the calls on a backend API; returns nothing (the backend keeps the trace)."""
     vs = []
     for kind, val in spec["vars"]:
         vs.append(api.pubval(val) if kind == "pub" else api.privval(val))
-    menu = lc_menu(len(vs), p)
+    menu = lc_menu(min(len(vs), 3), p)
     for tri in spec["cons"]:
+        if tri[0] == "g":
+            _, a, b, c, k = tri
+            api.add_constraint(vs[a], vs[b] * k + api.one(), vs[c] * 3 - vs[a])
+            continue
         a, b, c = (menu[i][1](api, vs) for i in tri)
         api.add_constraint(a, b, c)
 
@@ -85,14 +118,23 @@ def expected(spec, p):
         else:
             priv.append(val)
             names[i] = ("priv", len(priv))
-    menu = lc_menu(len(spec["vars"]), p)
+    menu = lc_menu(min(len(spec["vars"]), 3), p)
     cons = []
     for tri in spec["cons"]:
+        if tri[0] == "g":
+            _, a, b, c, k = tri
+            cd = {}
+            for r, co in ((c + 1, 3), (a + 1, -1)):
+                cd[names[r]] = (cd.get(names[r], 0) + co) % p
+            cons.append(({names[a + 1]: 1}, {names[b + 1]: k % p, "one": 1}, {kk: vv for kk, vv in cd.items() if vv}))
+            continue
         cons.append(tuple({names[r]: c % p for r, c in menu[i][2].items() if c % p} for i in tri))
     return pub, priv, cons
 
 
 def spec_str(spec, p):
+    if spec.get("big"):
+        return "generated large trace: %d variables (every tenth public), %d constraints v[a]*(k*v[b]+one) = 3*v[c]-v[a]" % (len(spec["vars"]), len(spec["cons"]))
     menu = lc_menu(len(spec["vars"]), p)
 
     def v(x):
